@@ -162,6 +162,27 @@ def streams(seed, tier):
     out.append(Stream("pending-flags", "thr.repeat", "thr.repeat.check", flag,
                       "programs around NAME.QUOTE and bound names: three times in a row, on 1 / 8 / 16 threads at once, and after runs (other states) that END with a "
                       "NAME.QUOTE or a send flag pending: the pending flag belongs to the PushState, nothing leaks between states or threads"))
+    # (1c') the same call again: every deterministic instruction run three times in a row from the same state with ONE instruction set
+    #       (whatever an instruction closure or a thread-local remembers from the first call must not change the second)
+    again = []
+    nong = [x for x in sorted(modelled) if x not in stepgen.UNSAFE and x not in stepgen.RANDOM and not x.startswith("GRAPH.")]
+    nsafe = [x for x in nong if x not in stepgen.ALLOCATING]
+    per2 = {"quick": 2, "thorough": 20, "search": 6}[tier]
+    for nm in nong:
+        for j in range(per2):
+            st0 = sx_parse(stepgen.step_case(rng, nm, nong, nsafe, profile=j % 2))[2]
+            st0[14] = cfg(30, 500)
+            again.append(repeat_case(j % 2, st0, 3, 0, 1, []))
+    out.append(Stream("same-call-again", "thr.repeat", "thr.repeat.check", again,
+                      "each of the %d deterministic non-GRAPH instructions: a random state whose program starts with it, run three times in a row with one InstructionSet and once more on another thread" % len(nong)))
+    # (1c'') measurements of very deeply nested items by earlier runs on the same thread must not change how later runs measure ordinary items
+    deep = Z(1)
+    for _ in range(1100):
+        deep = L(deep)
+    probe = state(exec=parse_prog("( CODE.QUOTE ( 1 ( 2 FOO ) ( ) ) CODE.SIZE 3 CODE.EXTRACT CODE.QUOTE ( ( A ) B ) CODE.QUOTE A CODE.POSITION )", modelled), cfg=cfg(30, 500))
+    deep_other = state(exec=[I("CODE.QUOTE"), deep, I("CODE.SIZE"), I("INTEGER.POP"), I("CODE.POP")] * 30, cfg=cfg(200, 500))
+    out.append(Stream("after-deep-nesting-runs", "thr.repeat", "thr.repeat.check", [repeat_case(p_, probe, 1, 70, 1, [deep_other]) for p_ in (0, 1)],
+                      "CODE.SIZE / CODE.EXTRACT / CODE.POSITION on small items, before and after 70 runs (same thread) that quote and measure an item nested 1100 levels deep 2100 times"))
     # (1d) every deterministic instruction, the SAME random state in the debug and in the release build (a side effect inside
     #      debug_assert!, an overflow check, a libm call compiled differently): both must equal the model
     both = []
